@@ -935,6 +935,29 @@ pub fn generate_op_fastpath(rng: &mut Rng, n: usize, _tier: &str) -> Vec<String>
             push(name, flags, vec![int(0x3ffffff); 70]);
         }
     }
+    // the same values with redundant sign-extension bytes (an atom longer than its value needs): length-based
+    // shortcuts must not replace value-based decisions
+    let padded = |v: i128, k: usize| -> T {
+        let T::Atom(mut b) = int(v) else { unreachable!() };
+        let fill = if v < 0 { 0xff } else { 0x00 };
+        if b.is_empty() {
+            b = vec![0; k.max(1)];
+        } else {
+            for _ in 0..k {
+                b.insert(0, fill);
+            }
+        }
+        T::Atom(b)
+    };
+    for name in ["op_div", "op_divmod", "op_mod", "op_add", "op_subtract", "op_multiply", "op_gr", "op_logand", "op_logior", "op_logxor"] {
+        for flags in [0u32, 0x2000, 0x1000, 0x3000] {
+            for (a, b) in [(100i128, 7i128), (-100, 7), (100, -7), (7, 100), (-7, 100), (0x7fff, 0x80), (0xffff, 1), (-1, 1), (0, 5), (255, 255), (256, -256)] {
+                for (ka, kb) in [(0usize, 1usize), (0, 2), (1, 0), (2, 0), (1, 3)] {
+                    push(name, flags, vec![padded(a, ka), padded(b, kb)]);
+                }
+            }
+        }
+    }
     for name in ["op_gr", "op_logand", "op_logior", "op_logxor", "op_lognot", "op_ash", "op_lsh", "op_div", "op_divmod", "op_mod"] {
         for flags in [0u32, 0x2000] {
             for _ in 0..n.max(20) {
